@@ -2,18 +2,24 @@
 C17 — NumPy ufuncs on space elements behave like NumPy on the underlying arrays.
 
 The property is glue around NumPy.  The theorems are about the DECISION MODEL of that glue
-(`Model/Ufunc.lean`: `tensorDispatch`, `discrDispatch`, `powerDispatch`, `element`,
-`legacyCall`) for ALL argument combinations: every method, every `out` tuple (any length, any
-kinds), every NumPy result (any shapes as lists of `Nat`, any dtype), every weighting and
-partition.  NumPy's own result is a parameter (`NpRes`).
+(`Model/Ufunc.lean`: `tensorDispatch`, `discrDispatch`, `powerDispatch`, `powerLegacy`,
+`element`, `legacyCall`, `DType.canCast`, `npReduce`).  They quantify over every method, every
+`out` tuple, every NumPy result (shapes as lists of `Nat`, the 17 dtypes of `DType`) and, for
+spaces, over what the model can express: constant / array (of any of the 17 dtypes) / custom
+weightings, exponents, and partitions given per axis by `(lo, hi, n, cell side | grid points)`.
+NumPy's own result is a parameter (`NpRes`).
 
-NOT a theorem (by delegation, established by the correspondence/oracle on enumerated inputs
-only): that the numbers in the wrapped result equal NumPy's numbers.  In that sense the
-property as a whole is proved *partially*: result space / identity of `out` / rejection rules /
-legacy table / no-copy rule are theorems, numerical equality is tested.
+NOT theorems (established by the oracle on the enumerated zoo only): that the numbers in the
+wrapped result, or written into a given `out`, equal NumPy's numbers; that operands are left
+untouched.  `C17.ufunc_out_identity_*` prove that the returned OBJECT is the given one, not
+what it holds.
 
-The legacy table (`Gen/UfuncLegacy.lean`) is GENERATED from `odl/util/ufuncs.py` and the live
-NumPy on every run, so `C17.legacy_table_total` is re-checked against the source each time.
+Not modelled at all: `Tensor.__array_ufunc__` of `base_tensors.py` (unreachable through the
+two shipped subclasses, which override it), a discretized and a tensor element mixed in one
+call, `where=`/`order=`/`casting=`, gufuncs.
+
+The legacy tables and NumPy's `can_cast` table (`Gen/UfuncLegacy.lean`) are GENERATED from
+`odl/util/ufuncs.py` and the live NumPy on every run.
 -/
 import OdlModel.Model.Ufunc
 import OdlModel.Gen.UfuncLegacy
@@ -31,22 +37,16 @@ def expectedWeighting (s : TSelf) (m : Method) (nout : Nat) (sh : List Nat) (dt 
   else if m = .call ∧ nout ≠ 1 then Weighting.default
   else if sh = s.shape then s.w else .const 1 s.w.exp
 
-/-- NumPy's rule for the axes that survive `ufunc.reduce(axis=…)`: negative axes count from
-the end. -/
-def npKeptAxes (ndim : Nat) (axis : List Int) : List Nat :=
-  (List.range ndim).filter (fun i => !(axis.map (· % (ndim : Int))).contains (i : Int))
-
 /-- A request is *regular* for the tensor glue: well-formed `out` tuple of accepted kinds,
-NumPy returns arrays of a numeric dtype (one per output), and — the one remaining recorded
-defect, C17-F4 — the weighting is constant or the result dtype can hold a float64 weight
-array.  (Before the repairs of C17-F1 and C17-F5 it also had to exclude 0-d `out` arrays and
-`__call__` results larger than the element's shape.) -/
+NumPy returns arrays of a numeric dtype (one per output), and — the recorded defect C17-F4 —
+if the weighting is a weight ARRAY, its dtype can be cast safely to the (floating) result
+dtype.  Constant and custom weightings are always regular. -/
 def RegularT (s : TSelf) (m : Method) (nout : Nat) (outs : List OutKind) (vals : List NpVal) :
     Prop :=
   arityOk m nout outs.length = true ∧ outs.all validOutT = true ∧
   (m = .call → (nout = 1 ∨ nout = 2) ∧ vals.length = nout) ∧ (m ≠ .call → vals.length = 1) ∧
   (∀ v ∈ vals, ∃ sh dt, v = .arr sh dt ∧ dt.isNumeric = true ∧
-      (dt.isFloating = true → (∃ c e, s.w = .const c e) ∨ dt.canCastFromF64 = true))
+      (dt.isFloating = true → ∀ wdt e, s.w = .array wdt e → wdt.canCast dt = true))
 
 end OdlModel.C17
 
@@ -80,7 +80,7 @@ theorem C17.arity_rule (m : Method) (nout n : Nat) :
   cases m <;> simp
 
 example : arityOk .call 1 2 = false ∧ arityOk .reduce 1 2 = false ∧ arityOk .call 2 1 = false ∧
-    arityOk .call 2 2 = true ∧ arityOk .at 1 1 = true := by decide
+    arityOk .call 2 2 = true ∧ arityOk .at 1 1 = true := by decide +kernel
 
 /-- A foreign `out` entry (anything but `None`, an own tensor, an `ndarray`) makes the tensor
 glue return `NotImplemented` — for every well-formed tuple. -/
@@ -125,7 +125,7 @@ theorem C17.ufunc_out_identity_tensor (s : TSelf) (m : Method) (nout : Nat)
 
 example : tensorDispatch ⟨[2, 3], .const 2 (some 2)⟩ .call 2 [.own, .none]
     (.ok [.arr [2, 3] .float64, .arr [2, 3] .int32]) =
-    .ok [.given 0, .wrapT [2, 3] .int32 Weighting.default] := by decide
+    .ok [.given 0, .wrapT [2, 3] .int32 Weighting.default] := by decide +kernel
 
 /-- With an array coming back from NumPy at position 0, the tensor glue never takes the
 scalar / `None` short-cut. -/
@@ -172,8 +172,9 @@ theorem C17.ufunc_out_identity_discr (s : DSelf) (m : Method) (nout : Nat)
   · cases m <;> simp_all [arityOk, out1, out2, bindOutcome] <;>
       (repeat' split at h) <;> (try simp_all) <;> omega
 
-example : discrDispatch ⟨[⟨0, 1, 2⟩, ⟨0, 3, 3⟩], .float64, 1/2, some 2⟩ .accumulate 1 [.tensor]
-    [.own] [] (.ints [1]) false (.ok [.arr [2, 3] .float64]) = .ok [.given 0] := by decide
+example : discrDispatch ⟨[⟨0, 1, 2, .uniform (1/2)⟩, ⟨0, 3, 3, .uniform 1⟩], .float64,
+      .array .float64 (some 2)⟩ .accumulate 1 [.tensor]
+    [.own] [] (.ints [1]) false (.ok [.arr [2, 3] .float64]) = .ok [.given 0] := by decide +kernel
 
 /-! ## Result space -/
 
@@ -219,61 +220,75 @@ theorem C17.ufunc_result_space_tensor (s : TSelf) (m : Method) (nout : Nat)
     · simp at hv
   · cases m <;> (repeat' split at h) <;> simp_all
 
-/-! ## The repaired defects (model of the fixed code) and the one that remains -/
+/-! ## Broadcasting, 0-d `out`, and the open defect C17-F4 on the model -/
 
-/-- C17-F1 repaired: `np.add(x, y)` with `x` in a weighted `rn(3)` and `y` of shape `(2, 3)`
-is wrapped in a space of NumPy's shape `(2, 3)`, unweighted with the same exponent — exactly
-as `outer` does.  The OLD wrapping (`wrapCallOld`: space of `self.shape`) raised. -/
+/-- `np.add(x, y)` with `x` in a weighted `rn(3)` (exponent 1) and `y` of shape `(2, 3)` is
+wrapped in a space of NumPy's shape `(2, 3)`, unweighted with the same exponent — exactly as
+`outer` does (C17-F1, repaired in /repo fd350b6). -/
 theorem C17.call_broadcast_larger :
     tensorDispatch ⟨[3], .const 2 (some 1)⟩ .call 1 [] (.ok [.arr [2, 3] .float64]) =
       .ok [.wrapT [2, 3] .float64 (.const 1 (some 1))] ∧
     tensorDispatch ⟨[3], .const 2 (some 1)⟩ .outer 1 [] (.ok [.arr [2, 3] .float64]) =
-      .ok [.wrapT [2, 3] .float64 (.const 1 (some 1))] ∧
-    out1 (wrapCallOld ⟨[3], .const 2 (some 1)⟩ true (.arr [2, 3] .float64)) = .err "ValueError" := by
-  decide
+      .ok [.wrapT [2, 3] .float64 (.const 1 (some 1))] := by
+  decide +kernel
 
-/-- Finding C17-F4 (open) on the model: array-weighted float64 space, float32 result: the
-space constructor refuses the weighting (`ValueError`). -/
-theorem C17.array_weighting_narrow_dtype_fails :
-    tensorDispatch ⟨[3], .array (some 2)⟩ .call 1 [] (.ok [.arr [3] .float32]) =
-      .err "ValueError" := by decide
+/-- Finding C17-F4 (open) on the model: a weight array whose dtype cannot be cast SAFELY to
+the floating result dtype makes the space constructor raise whenever the shape is unchanged
+(so that the weighting is propagated), for every shape and exponent (`float64` weights / `float32` result is the instance seen in practice). -/
+theorem C17.array_weighting_narrow_dtype_fails (sh : List Nat) (e : Exponent)
+    (wdt dt : DType) (hf : dt.isFloating = true) (hc : wdt.canCast dt = false) :
+    tensorDispatch ⟨sh, .array wdt e⟩ .call 1 [] (.ok [.arr sh dt]) = .err "ValueError" ∧
+    tensorDispatch ⟨sh, .array wdt e⟩ .accumulate 1 [] (.ok [.arr sh dt]) =
+      .err "ValueError" := by
+  have hn : dt.isNumeric = true := by
+    cases dt <;> simp_all [DType.isFloating, DType.isNumeric]
+  have ha : dt.available = true := by cases dt <;> simp_all [DType.isFloating, DType.available]
+  constructor
+  · simp [tensorDispatch, arityOk, OutKind.given, out1, wrapCall, ctorT, hf, hn, ha, hc]
+  · simp [tensorDispatch, arityOk, OutKind.given, out1, wrapMethod, ctorT, hf, hn, ha, hc]
 
-/-- C17-F5 repaired: a 0-d `ndarray` given as `out` of a full reduction is written to and
-returned like any other array (NumPy hands back the 0-d array, not a scalar). -/
+example : DType.float64.canCast .float32 = false ∧ DType.float32.isFloating = true ∧
+    DType.int8.canCast .float16 = true := by decide +kernel
+
+/-- A 0-d `ndarray` given as `out` of a full reduction is returned like any other array
+(C17-F5, repaired in /repo 6f35866). -/
 theorem C17.zero_dim_out (s : TSelf) (dt : DType) :
     tensorDispatch s .reduce 1 [.ndarray0] (.ok [.arr [] dt]) = .ok [.given 0] := by
   simp [tensorDispatch, arityOk, validOutT, OutKind.given]
 
 /-! ## Totality on regular requests -/
 
-/-- The space constructor accepts every numeric dtype unless a float64 weight array cannot be
-cast to it. -/
+/-- numeric dtypes are supported by the space constructor -/
+theorem C17.numeric_available (dt : DType) (h : dt.isNumeric = true) : dt.available = true := by
+  cases dt <;> simp_all [DType.isNumeric, DType.available]
+
+/-- The space constructor accepts every numeric dtype unless a weight array cannot be cast
+safely to it. -/
 theorem C17.ctorT_ok (dt : DType) (w : Option Weighting) (hn : dt.isNumeric = true)
-    (hw : ∀ e, w = some (.array e) → dt.canCastFromF64 = true) :
+    (hw : ∀ wdt e, w = some (.array wdt e) → wdt.canCast dt = true) :
     ∃ w', ctorT dt w = .ok w' := by
   unfold ctorT
-  rcases w with _ | (⟨c, e⟩ | e)
-  · exact ⟨_, rfl⟩
-  · simp [hn]
-  · simp [hn, hw e rfl]
+  rcases w with _ | (⟨c, e⟩ | ⟨wdt, e⟩ | e)
+  · simp [C17.numeric_available dt hn]
+  · simp [hn, C17.numeric_available dt hn]
+  · simp [hn, C17.numeric_available dt hn, hw wdt e rfl]
+  · simp [hn, C17.numeric_available dt hn]
 
 /-- `__call__` wrapping succeeds for any result shape. -/
 theorem C17.wrapCall_ok (s : TSelf) (p : Bool) (sh : List Nat) (dt : DType)
     (hn : dt.isNumeric = true)
-    (hw : dt.isFloating = true → (∃ c e, s.w = .const c e) ∨ dt.canCastFromF64 = true) :
+    (hw : dt.isFloating = true → ∀ wdt e, s.w = .array wdt e → wdt.canCast dt = true) :
     ∃ r, wrapCall s p (.arr sh dt) = .ok r := by
   unfold wrapCall
   obtain ⟨w', hw'⟩ := C17.ctorT_ok dt (if (p && dt.isFloating) = true then
       (if sh ≠ s.shape then some (.const 1 s.w.exp) else some s.w) else none) hn (by
-    intro e he
+    intro wdt e he
     split at he
     · rename_i hc
       simp at hc
       split at he
       · simp at he
-      · rcases hw hc.2 with ⟨c, e', h⟩ | h
-        · simp_all
-        · exact h
+      · exact hw hc.2 wdt e (by simpa using he)
     · simp at he)
   dsimp only at hw' ⊢
   rw [hw']
@@ -282,29 +297,29 @@ theorem C17.wrapCall_ok (s : TSelf) (p : Bool) (sh : List Nat) (dt : DType)
 /-- Wrapping for the other methods succeeds for any result shape. -/
 theorem C17.wrapMethod_ok (s : TSelf) (sh : List Nat) (dt : DType)
     (hn : dt.isNumeric = true)
-    (hw : dt.isFloating = true → (∃ c e, s.w = .const c e) ∨ dt.canCastFromF64 = true) :
+    (hw : dt.isFloating = true → ∀ wdt e, s.w = .array wdt e → wdt.canCast dt = true) :
     ∃ r, wrapMethod s sh dt = .ok r := by
   unfold wrapMethod
   obtain ⟨w', hw'⟩ := C17.ctorT_ok dt (if dt.isFloating = true then
       (if sh ≠ s.shape then some (.const 1 s.w.exp) else some s.w) else none) hn (by
-    intro e he
+    intro wdt e he
     split at he
     · rename_i hc
       split at he
       · simp at he
-      · rcases hw hc with ⟨c, e', h⟩ | h
-        · simp_all
-        · exact h
+      · exact hw hc wdt e (by simpa using he)
     · simp at he)
   dsimp only at hw' ⊢
   rw [hw']
   simp
 
 /- FULL statement wanted by the property: for every well-formed call on which NumPy succeeds
-   (returning numeric arrays), the glue succeeds and returns one object per output.  After the
-   repairs of C17-F1 (fd350b6) and C17-F5 (6f35866) the ONLY remaining gap is C17-F4: an
-   array-weighted space with a floating result dtype that cannot hold float64 weights
-   (`array_weighting_narrow_dtype_fails`).  `RegularT` excludes exactly that. -/
+   (returning numeric arrays), the TENSOR glue succeeds and returns one object per output.
+   The remaining gap for tensors is C17-F4 (`array_weighting_narrow_dtype_fails`); `RegularT`
+   excludes exactly that.  NOTHING of this kind is claimed for discretized or product-space
+   elements: there the glue also fails for a larger broadcast result (C17-F10), for reductions
+   of array-weighted spaces (C17-F11) and on product spaces (C17-F6a–e); see
+   `discr_recorded_failures` and `power_limits`. -/
 
 /-- `ufunc_result_total_partial` (tensor): on every regular request (all methods, one or two
 outputs, any accepted `out` tuple incl. 0-d arrays, any result shapes incl. broadcasting to a
@@ -351,13 +366,17 @@ theorem C17.ufunc_result_total_const (shape : List Nat) (c : Rat) (e : Exponent)
       rets.length = vals.length :=
   C17.ufunc_result_total_partial _ m nout outs vals ⟨ha, hv, hc, hm, fun v hvm => by
     obtain ⟨sh, dt, h1, h2⟩ := hvals v hvm
-    exact ⟨sh, dt, h1, h2, fun _ => Or.inl ⟨c, e, rfl⟩⟩⟩
+    exact ⟨sh, dt, h1, h2, fun _ wdt e' h => by simp at h⟩⟩
 
-example : RegularT ⟨[2, 3], .array (some 2)⟩ .reduce 1 [.ndarray0] [.arr [] .complex128] := by
+example : RegularT ⟨[2, 3], .array .int8 (some 2)⟩ .reduce 1 [.ndarray0]
+    [.arr [] .float16] := by
   refine ⟨by decide, by decide, by decide, by decide, ?_⟩
   intro v hv
   simp at hv
-  exact ⟨[], .complex128, hv, by decide, fun _ => Or.inr (by decide)⟩
+  refine ⟨[], .float16, hv, by decide, fun _ wdt e h => ?_⟩
+  simp at h
+  obtain ⟨rfl, -⟩ := h
+  decide
 
 /-! ## Discretized elements: `reduce`, `outer` -/
 
@@ -378,12 +397,13 @@ theorem C17.floating_numeric (dt : DType) (h : dt.isFloating = true) : dt.isNume
   cases dt <;> simp_all [DType.isFloating, DType.isNumeric]
 
 /-- `wrapMethod` for a constant weighting never fails, whatever the dtype. -/
-theorem C17.wrapMethod_const (sh shp : List Nat) (c : Rat) (e : Exponent) (dt : DType) :
+theorem C17.wrapMethod_const (sh shp : List Nat) (c : Rat) (e : Exponent) (dt : DType)
+    (hav : dt.available = true) :
     wrapMethod ⟨shp, .const c e⟩ sh dt = .ok (.wrapT sh dt
       (if dt.isFloating then (if sh ≠ shp then .const 1 e else .const c e) else Weighting.default)) := by
   unfold wrapMethod ctorT
   cases hd : dt.isFloating <;> by_cases hs : sh = shp <;>
-    simp [hs, Weighting.exp, C17.floating_numeric, hd]
+    simp [hs, Weighting.exp, C17.floating_numeric, hd, hav]
 
 /-- `reduce` on a discretized element delegates to the tensor and re-wraps by `reduceWrap`. -/
 theorem C17.discr_reduce_unfold (s : DSelf) (ins : List InKind) (ps : List DSelf) (ax : Axis)
@@ -413,129 +433,250 @@ theorem C17.discr_outer_unfold (s p1 p2 : DSelf) (dt : DType) (sh : List Nat) :
   rfl
 
 
-/-- C17-F2 repaired: the code's `reduced_axes` are exactly the axes NumPy keeps, for every
-number of dimensions and EVERY axis list (negative entries included). -/
-theorem C17.discr_reduce_axes (ndim : Nat) (axis : List Int) :
-    reducedAxes ndim (.ints axis) = npKeptAxes ndim axis := by
-  simp [reducedAxes, npKeptAxes]
+/-- index-list selection = positional deletion -/
+theorem C17.keepIdx_eq {α} (p : Nat → Bool) (d : α) : ∀ (l : List α) (k : Nat),
+    ((List.range' k l.length).filter p).map (fun i => l.getD (i - k) d) = keepIdx p l k
+  | [], k => by simp [keepIdx]
+  | x :: t, k => by
+    have ih := C17.keepIdx_eq p d t (k + 1)
+    have hcongr : ∀ i ∈ (List.range' (k + 1) t.length).filter p,
+        (x :: t).getD (i - k) d = t.getD (i - (k + 1)) d := by
+      intro i hi
+      have : k + 1 ≤ i := by
+        have := (List.mem_filter.mp hi).1
+        simp [List.mem_range'] at this
+        omega
+      have h2 : i - k = (i - (k + 1)) + 1 := by omega
+      rw [h2]; simp
+    simp only [List.length_cons, List.range'_succ, keepIdx]
+    by_cases hp : p k
+    · simp [hp, List.filter_cons]
+      rw [← ih]
+      exact List.map_congr_left (by simpa using hcongr)
+    · simp [hp, List.filter_cons]
+      rw [← ih]
+      exact List.map_congr_left (by simpa using hcongr)
 
-/-- Sensitivity: the old code (`reducedAxesOld`, raw integers) agrees with NumPy only for
-in-range non-negative axes … -/
-theorem C17.discr_reduce_axes_old (ndim : Nat) (axis : List Int)
-    (h : ∀ a ∈ axis, 0 ≤ a ∧ a < (ndim : Int)) :
-    reducedAxesOld ndim (.ints axis) = npKeptAxes ndim axis := by
-  have : axis.map (· % (ndim : Int)) = axis := by
-    conv => rhs; rw [← List.map_id axis]
-    apply List.map_congr_left
-    intro a ha
-    obtain ⟨h0, h1⟩ := h a ha
-    simp [Int.emod_eq_of_lt h0 h1]
-  simp [reducedAxesOld, npKeptAxes, this]
+/-- for a valid axis, the code's `a % ndim` is the position NumPy means -/
+theorem C17.npAxisPos_mod (ndim : Nat) (a : Int) (p : Nat) (h : npAxisPos ndim a = some p) :
+    a % (ndim : Int) = (p : Int) ∧ p < ndim := by
+  unfold npAxisPos at h
+  split at h
+  · rename_i h1
+    simp at h; subst h
+    have : a % (ndim : Int) = a := Int.emod_eq_of_lt h1.1 h1.2
+    omega
+  · split at h
+    · rename_i h1 h2
+      simp at h; subst h
+      have : (a + ndim) % (ndim : Int) = a + ndim := Int.emod_eq_of_lt (by omega) (by omega)
+      have h3 : a % (ndim : Int) = (a + ndim) % (ndim : Int) := by simp
+      omega
+    · simp at h
 
-example : reducedAxes 3 (.ints [0, -1]) = [1] ∧ npKeptAxes 3 [0, 2] = [1] := by decide
+theorem C17.npPositions_mod (ndim : Nat) : ∀ (axis : List Int) (pos : List Nat),
+    npPositions ndim axis = some pos → axis.map (· % (ndim : Int)) = pos.map Int.ofNat
+  | [], pos, h => by simp [npPositions] at h; subst h; simp
+  | a :: t, pos, h => by
+    unfold npPositions at h
+    cases hpa : npAxisPos ndim a with
+    | none => simp [hpa] at h
+    | some p =>
+      cases hpt : npPositions ndim t with
+      | none => simp [hpa, hpt] at h
+      | some ps =>
+        simp [hpa, hpt] at h; subst h
+        have := C17.npPositions_mod ndim t ps hpt
+        simp [this, (C17.npAxisPos_mod ndim a p hpa).1]
 
-/-- … and kept every axis for a negative one (the defect C17-F2), while the repaired code
-drops the right axis and the call succeeds. -/
-theorem C17.discr_reduce_negative_axis :
-    reducedAxesOld 2 (.ints [-1]) = [0, 1] ∧ reducedAxes 2 (.ints [-1]) = [0] ∧
-    npKeptAxes 2 [-1] = [0] ∧
-    ∃ w, discrDispatch ⟨[⟨0, 1, 2⟩, ⟨0, 3, 3⟩], .float64, 1/2, some 2⟩ .reduce 1 [] [.own] []
-      (.ints [-1]) false (.ok [.arr [2] .float64]) =
-      .ok [.wrapD [2] .float64 w [⟨0, 1, 2⟩]] :=
-  ⟨by decide, by decide, by decide, _, rfl⟩
+/-- `discr_reduce_axes` (C17-F2 repaired, d2661b2): whenever NumPy accepts the `axis` argument
+(`npReduce`: entries in `[-ndim, ndim)`, no duplicates; negative ones counted from the end —
+stated without a modulus and executed against the live NumPy by the driver), selecting the
+code's `reduced_axes` from ANY per-axis list (shape, partition) gives exactly what NumPy's
+deletion of the reduced positions gives. For every number of dimensions and axis list. -/
+theorem C17.discr_reduce_axes {α} (l : List α) (d : α) (axis : List Int) (r : List α)
+    (h : npReduce l axis = some r) :
+    (reducedAxes l.length (.ints axis)).map (fun i => l.getD i d) = r := by
+  unfold npReduce at h
+  cases hm : npPositions l.length axis with
+  | none => simp [hm] at h
+  | some pos =>
+    simp only [hm] at h
+    split at h
+    · simp only [Option.some.injEq] at h; subst h
+      have := C17.keepIdx_eq (fun i => !pos.contains i) d l 0
+      simp only [Nat.sub_zero, ← List.range_eq_range'] at this
+      rw [← this]
+      simp only [reducedAxes]
+      rw [C17.npPositions_mod l.length axis pos hm]
+      congr 1
+      apply List.filter_congr
+      intro i _
+      congr 1
+      rw [Bool.eq_iff_iff]
+      simp
+      constructor
+      · rintro ⟨a, ha, hai⟩
+        have : a = i := by exact_mod_cast hai
+        exact this ▸ ha
+      · intro hi
+        exact ⟨i, hi, rfl⟩
+    · simp at h
 
-/-- `reduce` on a discretized element (no `out`, `keepdims=False`): if NumPy's result has the
-shape of the kept axes (which, by `discr_reduce_axes`, are NumPy's own), the result is a
-discretized element whose partition consists of the kept axes of the original partition, in
-order, with NumPy's dtype; its weighting is the cell volume of the remaining partition (for
-the same or a floating dtype). For every partition, every axis argument and every dtype. -/
-theorem C17.discr_reduce_result (s : DSelf) (ins : List InKind) (ps : List DSelf) (ax : Axis)
-    (dt : DType) (sh : List Nat)
-    (hsh : sh = ((reducedAxes s.part.length ax).map (fun i => s.part.getD i cellDefault)).map
-      (·.n)) :
-    discrDispatch s .reduce 1 [] ins ps ax false (.ok [.arr sh dt]) =
+example : npReduce [2, 3, 4] [-1, 0] = some [3] ∧ npReduce [2, 3] [2] = none ∧
+    npReduce [2, 3] [1, -1] = none ∧
+    (reducedAxes 3 (.ints [-1, 0])).map (fun i => [2, 3, 4].getD i 0) = [3] := by decide +kernel
+
+/-- the kept axes of a partition, as the code selects them -/
+def OdlModel.C17.keptPart (s : DSelf) (ax : Axis) : List Cell :=
+  (reducedAxes s.part.length ax).map (fun i => s.part.getD i cellDefault)
+
+/-- `reduce` on a discretized element with a CONSTANT weighting (no `out`, `keepdims=False`,
+one output): if NumPy's result has the shape of the kept axes (`discr_reduce_axes`: they are
+NumPy's own) and a supported dtype, the result is a discretized element whose partition
+consists of the kept axes of the original partition, in order, with NumPy's dtype.  Its
+weighting is the cell volume of the remaining partition when that is uniform (whatever the
+original constant was — the code's choice), the original constant otherwise (non-uniform
+axes; C17-F9, a448513); for a dtype change to a non-floating dtype it is the default.
+Cell sides are the code's (`partition.cell_sides`, also with nodes on the boundary). -/
+theorem C17.discr_reduce_result (part : List Cell) (sdt : DType) (c : Rat) (e : Exponent)
+    (ins : List InKind) (ps : List DSelf) (ax : Axis) (dt : DType) (sh : List Nat)
+    (hsh : sh = (keptPart ⟨part, sdt, .const c e⟩ ax).map (·.n)) (hav : dt.available = true) :
+    discrDispatch ⟨part, sdt, .const c e⟩ .reduce 1 [] ins ps ax false (.ok [.arr sh dt]) =
       .ok [.wrapD sh dt
-        (if dt = s.dt then .const (cellVolume ((reducedAxes s.part.length ax).map
-            (fun i => s.part.getD i cellDefault))) s.exp
-         else if dt.isFloating then .const (cellVolume ((reducedAxes s.part.length ax).map
-            (fun i => s.part.getD i cellDefault))) s.exp
-         else Weighting.default)
-        ((reducedAxes s.part.length ax).map (fun i => s.part.getD i cellDefault))] := by
+        (let w0 : Weighting :=
+            match cellVolume (keptPart ⟨part, sdt, .const c e⟩ ax) with
+            | some v => .const v e
+            | none => .const c e
+         if dt = sdt then w0 else if dt.isFloating then w0 else Weighting.default)
+        (keptPart ⟨part, sdt, .const c e⟩ ax)] := by
   subst hsh
-  have hp := C17.padShape_self (((reducedAxes s.part.length ax).map
-    (fun i => s.part.getD i cellDefault)).map (·.n))
+  have hp := C17.padShape_self ((keptPart ⟨part, sdt, .const c e⟩ ax).map (·.n))
   simp only [List.length_map] at hp
   rw [C17.discr_reduce_unfold, C17.tensor_method_none _ _ (by decide), DSelf.toT,
-    C17.wrapMethod_const]
-  simp only [out1, bindOutcome, reduceWrap, List.length_map, hp, if_true]
+    C17.wrapMethod_const _ _ _ _ _ hav]
+  simp only [out1, bindOutcome, reduceWrap, byaxisWeighting, keptPart, List.length_map] at hp ⊢
+  cases hv : cellVolume (List.map (fun i => part.getD i cellDefault)
+      (reducedAxes part.length ax)) <;>
+    simp_all
 
-example : ∃ w, discrDispatch ⟨[⟨0, 1, 2⟩, ⟨0, 3, 3⟩], .float64, 1/2, some 2⟩ .reduce 1 [] [.own] []
-    (.ints [0]) false (.ok [.arr [3] .float64]) =
-    .ok [.wrapD [3] .float64 w [⟨0, 3, 3⟩]] := ⟨_, rfl⟩
+example : discrDispatch ⟨[⟨0, 1, 2, .uniform 1⟩, ⟨0, 3, 3, .uniform (3/2)⟩], .float64,
+      .const (3/2) (some 2)⟩ .reduce 1 [] [.own] [] (.ints [0]) false
+      (.ok [.arr [3] .float64]) =
+    .ok [.wrapD [3] .float64 (.const (3/2) (some 2)) [⟨0, 3, 3, .uniform (3/2)⟩]] := by
+  decide +kernel
 
-/-- `outer` of two discretized elements, EVERY result dtype (C17-F3 repaired): partitions
-appended; numeric dtype → weighting constants multiplied; boolean → default weighting. -/
-theorem C17.discr_outer_result (s p1 p2 : DSelf) (dt : DType) :
-    ∃ e, discrDispatch s .outer 1 [] [.own, .own] [p1, p2] .absent false
+/-- `outer` of two discretized elements with constant weightings, EVERY result dtype:
+partitions appended; numeric dtype → the constants multiplied, with the exponent of the tensor
+result (the element's for a floating dtype, 2 otherwise); boolean → default weighting
+(C17-F3, 12d891f). -/
+theorem C17.discr_outer_result (part : List Cell) (sdt : DType) (c : Rat) (e : Exponent)
+    (p1 p2 : DSelf) (c1 c2 : Rat) (e1 e2 : Exponent) (h1 : p1.w = .const c1 e1)
+    (h2 : p2.w = .const c2 e2) (dt : DType) (hav : dt.available = true) :
+    discrDispatch ⟨part, sdt, .const c e⟩ .outer 1 [] [.own, .own] [p1, p2] .absent false
       (.ok [.arr ((p1.part ++ p2.part).map (·.n)) dt]) =
       .ok [.wrapD ((p1.part ++ p2.part).map (·.n)) dt
-        (if dt.isNumeric then .const (p1.wc * p2.wc) e else Weighting.default)
+        (if dt.isNumeric then .const (c1 * c2) (if dt.isFloating then e else some 2)
+         else Weighting.default)
         (p1.part ++ p2.part)] := by
   rw [C17.discr_outer_unfold, C17.tensor_method_none _ _ (by decide), DSelf.toT,
-    C17.wrapMethod_const]
-  simp only [out1, bindOutcome, outerWrap]
-  refine ⟨(if dt.isFloating = true then
-      if List.map (fun x => x.n) (p1.part ++ p2.part) ≠ s.shape then Weighting.const 1 s.exp
-      else Weighting.const s.wc s.exp
-    else Weighting.default).exp, ?_⟩
-  cases hn : dt.isNumeric <;> cases hf : dt.isFloating <;> simp_all
-  exact absurd (C17.floating_numeric dt hf) (by simp [hn])
+    C17.wrapMethod_const _ _ _ _ _ hav]
+  simp only [out1, bindOutcome, outerWrap, h1, h2]
+  have hexp : ∀ (b : Prop) [Decidable b] (x y : Rat),
+      (if b then Weighting.const x e else Weighting.const y e).exp = e := by
+    intro b _ x y; split <;> rfl
+  cases hn : dt.isNumeric <;> cases hf : dt.isFloating
+  · simp [Weighting.default]
+  · exact absurd (C17.floating_numeric dt hf) (by simp [hn])
+  · simp [Weighting.default, Weighting.exp]
+  · simp [hexp]
 
-/-- `np.equal.outer(x, x)` now works (the old `outerWrapOld` raised: C17-F3); the three
-DOCUMENTED rejections of the discretized glue stay rejections. -/
-theorem C17.discr_outer_bool_and_documented_rejections :
-    let s : DSelf := ⟨[⟨0, 1, 2⟩], .float64, 1/2, some 2⟩
-    discrDispatch s .outer 1 [] [.own, .own] [s, s] .absent false
-      (.ok [.arr [2, 2] .bool]) = .ok [.wrapD [2, 2] .bool Weighting.default [⟨0, 1, 2⟩, ⟨0, 1, 2⟩]] ∧
-    out1 (outerWrapOld s s (.wrapT [2, 2] .bool Weighting.default)) = .err "ValueError" ∧
-    discrDispatch s .outer 1 [] [.own, .ndarray] [s] .absent false
-      (.ok [.arr [2, 2] .float64]) = .err "TypeError" ∧
-    discrDispatch s .reduceat 1 [] [.own] [] .absent false
-      (.ok [.arr [2] .float64]) = .err "ValueError" ∧
-    discrDispatch s .reduce 1 [] [.own] [] .absent true
-      (.ok [.arr [1] .float64]) = .err "ValueError" := by decide
+example : discrDispatch ⟨[⟨0, 1, 2, .uniform (1/2)⟩], .float64, .const (1/2) (some 1)⟩ .outer 1 []
+      [.own, .own] [⟨[⟨0, 1, 2, .uniform (1/2)⟩], .float64, .const (1/2) (some 1)⟩,
+        ⟨[⟨1, 2, 2, .uniform (1/2)⟩], .float64, .const 3 (some 1)⟩] .absent false
+      (.ok [.arr [2, 2] .float64]) =
+    .ok [.wrapD [2, 2] .float64 (.const (3/2) (some 1))
+      [⟨0, 1, 2, .uniform (1/2)⟩, ⟨1, 2, 2, .uniform (1/2)⟩]] := by decide +kernel
+
+/-- The three DOCUMENTED rejections of the discretized glue, for every element, `out`-less
+request and NumPy result: `reduce(keepdims=True)` and `reduceat` raise `ValueError`, `outer`
+with an operand that is not a discretized element raises `TypeError`. -/
+theorem C17.discr_documented_rejections (s : DSelf) (ins : List InKind) (ps : List DSelf)
+    (ax : Axis) (kd : Bool) (np : NpRes) :
+    discrDispatch s .reduce 1 [] ins ps ax true np = .err "ValueError" ∧
+    discrDispatch s .reduceat 1 [] ins ps ax kd np = .err "ValueError" ∧
+    ((ins.all (· = .own)) = false →
+      discrDispatch s .outer 1 [] ins ps ax kd np = .err "TypeError") := by
+  refine ⟨by simp [discrDispatch, arityOk], by simp [discrDispatch, arityOk], fun h => ?_⟩
+  simp [discrDispatch, arityOk, h]
+
+/-- The two OPEN discretized defects on the model, for every partition etc.:
+(C17-F10) a `__call__` whose NumPy result has another shape than the element (broadcasting
+against a larger array) raises `ValueError` although NumPy succeeds;
+(C17-F11) `reduce` over an axis of an ARRAY-weighted element raises `ValueError`
+(`tspace.byaxis` indexes the weight array along its first axis). -/
+theorem C17.discr_recorded_failures (s : DSelf) (ins : List InKind) (ps : List DSelf)
+    (ax : Axis) (kd : Bool) (sh : List Nat) (dt : DType) (hn : dt.isNumeric = true) :
+    (sh ≠ s.shape → (∀ wdt e, s.w ≠ .array wdt e) →
+      discrDispatch s .call 1 [] ins ps ax kd (.ok [.arr sh dt]) = .err "ValueError") ∧
+    (∀ wdt e, s.w = .array wdt e → (dt.isFloating = true → wdt.canCast dt = true) →
+      discrDispatch s .reduce 1 [] ins ps ax false (.ok [.arr sh dt]) = .err "ValueError") := by
+  have hav := C17.numeric_available dt hn
+  constructor
+  · intro hs hw
+    unfold discrDispatch tensorDispatch
+    cases hf : dt.isFloating <;> rcases hsw : s.w with ⟨c, e⟩ | ⟨wdt, e⟩ | e <;>
+      simp_all [arityOk, validOutT, validOutD, unwrapOut, OutKind.given, bindOutcome, out1,
+        wrapCall, ctorT, DSelf.toT, rewrapSame, Weighting.default, Weighting.exp] <;>
+      (repeat' split) <;> simp_all [rewrapSame]
+  · intro wdt e hw hc
+    rw [C17.discr_reduce_unfold, C17.tensor_method_none _ _ (by decide)]
+    unfold wrapMethod ctorT
+    by_cases hs : sh = s.shape <;> cases hf : dt.isFloating <;>
+      simp_all [DSelf.toT, out1, bindOutcome, reduceWrap, byaxisWeighting, Weighting.exp,
+        Weighting.default]
 
 /-- `__call__` (one output) and `accumulate` on a discretized element without `out`, NumPy
 result of the element's shape: the result is a discretized element over the SAME partition
-with NumPy's dtype; the weighting (the cell volume constant of the space) is propagated iff
-the result is floating.  For every partition, dtype, weighting constant and exponent. -/
-theorem C17.ufunc_result_space_discr (s : DSelf) (m : Method) (hm : m = .call ∨ m = .accumulate)
-    (ins : List InKind) (ps : List DSelf) (ax : Axis) (kd : Bool) (dt : DType) :
-    discrDispatch s m 1 [] ins ps ax kd (.ok [.arr s.shape dt]) =
-      .ok [.wrapD s.shape dt
-        (if dt.isFloating then .const s.wc s.exp else Weighting.default) s.part] := by
+with NumPy's dtype; a constant or custom weighting is propagated iff the result is floating
+(default otherwise).  For every partition, dtype, constant and exponent.  (Two outputs, a
+given `out`, array weightings: see `ufunc_out_identity_discr`, the correspondence.) -/
+theorem C17.ufunc_result_space_discr (part : List Cell) (sdt : DType) (w : Weighting)
+    (hw : ∀ wdt e, w ≠ .array wdt e) (m : Method) (hm : m = .call ∨ m = .accumulate)
+    (ins : List InKind) (ps : List DSelf) (ax : Axis) (kd : Bool) (dt : DType)
+    (hav : dt.available = true) :
+    discrDispatch ⟨part, sdt, w⟩ m 1 [] ins ps ax kd (.ok [.arr (part.map (·.n)) dt]) =
+      .ok [.wrapD (part.map (·.n)) dt
+        (if dt.isFloating then w else Weighting.default) part] := by
   rcases hm with rfl | rfl
   · unfold discrDispatch tensorDispatch
-    cases hf : dt.isFloating <;>
-      simp [arityOk, validOutT, validOutD, unwrapOut, OutKind.given, bindOutcome, out1,
-        wrapCall, ctorT, DSelf.toT, rewrapSame, hf, Weighting.default, Weighting.exp,
+    cases hf : dt.isFloating <;> rcases w with ⟨c, e⟩ | ⟨wdt, e⟩ | e <;>
+      simp_all [arityOk, validOutT, validOutD, unwrapOut, OutKind.given, bindOutcome, out1,
+        wrapCall, ctorT, DSelf.toT, DSelf.shape, rewrapSame, Weighting.default, Weighting.exp,
         C17.floating_numeric]
-  · unfold discrDispatch
-    simp only [arityOk]
-    simp [validOutD, unwrapOut, OutKind.given, C17.tensor_method_none, DSelf.toT,
-      C17.wrapMethod_const, bindOutcome, out1, rewrapSame]
+  · unfold discrDispatch tensorDispatch
+    cases hf : dt.isFloating <;> rcases w with ⟨c, e⟩ | ⟨wdt, e⟩ | e <;>
+      simp_all [arityOk, validOutT, validOutD, unwrapOut, OutKind.given, bindOutcome, out1,
+        wrapMethod, ctorT, DSelf.toT, DSelf.shape, rewrapSame, Weighting.default,
+        Weighting.exp, C17.floating_numeric]
 
-example : discrDispatch ⟨[⟨0, 1, 2⟩, ⟨0, 3, 3⟩], .float64, 1/2, some 1⟩ .call 1 [] [.own] []
-    .absent false (.ok [.arr [2, 3] .bool]) =
-    .ok [.wrapD [2, 3] .bool Weighting.default [⟨0, 1, 2⟩, ⟨0, 3, 3⟩]] := by decide
+example : discrDispatch ⟨[⟨0, 1, 2, .uniform (1/2)⟩, ⟨0, 3, 3, .uniform 1⟩], .float64,
+      .custom (some 1)⟩ .call 1 [] [.own] [] .absent false (.ok [.arr [2, 3] .float32]) =
+    .ok [.wrapD [2, 3] .float32 (.custom (some 1))
+      [⟨0, 1, 2, .uniform (1/2)⟩, ⟨0, 3, 3, .uniform 1⟩]] := by decide +kernel
 
-/-! ## Mixed operands -/
+/-! ## Operand kinds -/
 
-/-- `ufunc_mixed_operands`: the outcome does not depend on which operands are elements,
-arrays, scalars or lists, nor on their order — the glue never inspects them — for tensor and
-power-space elements with every method, and for discretized elements with every method except
-`outer` (which documents that both operands must be discretized elements). -/
-theorem C17.ufunc_mixed_operands (r : Req) (ins' : List InKind)
+/-- For a FIXED dispatching element the decision model never looks at the operand kinds (which
+operands are elements, arrays, scalars, lists), except that discretized `outer` requires both
+operands to be discretized elements.  This is close to definitional for the model (only
+`discrDispatch` receives the kinds); its content is that the CODE is modelled that way, which
+the correspondence checks with operand patterns `ee, ea, ae, es, se, el, le, eb, be, ey, ye`.
+It does NOT say that the result is independent of the operand ORDER when two elements of
+different spaces are combined: NumPy dispatches to the FIRST element, whose space's weighting
+is propagated (`np.add(xw, y)` is weighted, `np.add(y, xw)` is not) — recorded as NumPy's
+dispatch rule, generated as patterns `ey`/`ye`. -/
+theorem C17.dispatch_ignores_operand_kinds (r : Req) (ins' : List InKind)
     (h : r.kind = .discr → r.method ≠ .outer) :
     dispatch { r with ins := ins' } = dispatch r := by
   unfold dispatch
@@ -545,38 +686,46 @@ theorem C17.ufunc_mixed_operands (r : Req) (ins' : List InKind)
 
 example : dispatch {
       kind := .discr, shape := [2], dt := .float64, w := .const 3 (some 2),
-      part := [⟨0, 1, 2⟩], method := .call, nin := 2, nout := 1, outs := [],
+      part := [⟨0, 1, 2, .uniform (1/2)⟩], method := .call, nin := 2, nout := 1, outs := [],
       ins := [.ndarray, .own], inParts := [], axis := .absent, keepdims := false,
       np := .ok [.arr [2] .float64] } =
-    .ok [.wrapD [2] .float64 (.const 3 (some 2)) [⟨0, 1, 2⟩]] := by decide
+    .ok [.wrapD [2] .float64 (.const 3 (some 2)) [⟨0, 1, 2, .uniform (1/2)⟩]] := by decide +kernel
 
 /-! ## Legacy interface -/
 
 /-- `legacy_table_total`: for EVERY name in the extracted `RAW_UFUNCS`, `np.<name>` exists in
 NumPy's table, its `(nin, nout)` has a wrapper rule in `wrap_ufunc_base` (no
-`NotImplementedError` at import), and `x.ufuncs.<name>()` without `out` forwards to
-`__array_ufunc__(np.<name>, '__call__', …)` with an `out` tuple of exactly `nout` `None`s —
-which passes the arity check. Re-checked against the live source on every run. -/
+`NotImplementedError` at import), and `x.ufuncs.<name>()` without `out` forwards a
+`'__call__'` request with that `(nin, nout)` and an `out` tuple of exactly `nout` `None`s —
+which passes the arity check.  (That the wrapper forwards `getattr(np, name)` itself is a
+check of the translator, not a content of this theorem.) -/
 theorem C17.legacy_table_total :
     legacyNames.all (fun name =>
       match npUfuncs.find? (·.1 = name) with
       | none => false
-      | some (_, uname, nin, nout) =>
+      | some (_, _, nin, nout) =>
         (match legacyCall legacyNames legacyRules npUfuncs name .absent {
               kind := .tensor, shape := [3], dt := .float64, w := Weighting.default, part := [],
               method := .reduce, nin := 0, nout := 0, outs := [.foreign], ins := [],
               inParts := [], axis := .absent, keepdims := false, np := .err "" } with
          | none => false
-         | some (u, r) => u == uname && r.method == .call && r.nin == nin && r.nout == nout &&
+         | some (_, r) => r.method == .call && r.nin == nin && r.nout == nout &&
              r.outs == List.replicate nout .none && arityOk .call nout r.outs.length)) = true := by
-  decide
+  decide +kernel
 
 /-- The four legacy reductions forward to the NumPy ufunc one expects, with `reduce`. -/
 theorem C17.legacy_reductions :
     legacyReductions = [("sum", "add", "reduce"), ("prod", "multiply", "reduce"),
       ("min", "minimum", "reduce"), ("max", "maximum", "reduce")] ∧
     legacyReductions.all (fun t => (npUfuncs.find? (·.1 = t.2.1)).isSome) = true := by
-  decide
+  decide +kernel
+
+set_option maxRecDepth 8000 in
+/-- The model's `np.can_cast` (safe rule; it decides C17-F4) agrees with the live NumPy on all
+289 pairs of the model's dtypes (table regenerated on every run). -/
+theorem C17.canCast_matches_numpy :
+    npCanCast.length = 289 ∧ npCanCast.all (fun t => t.1.canCast t.2.1 == t.2.2) = true := by
+  decide +kernel
 
 /-! ## Wrapping arrays: no copy -/
 
@@ -597,30 +746,26 @@ theorem C17.wrap_shares_only_if (sshape : List Nat) (sdt : DType) (a : ArrDesc) 
 
 example : element [1, 3] .float64 ⟨[3], .float64, true, true, true⟩ .any = .ok true ∧
     element [3] .float64 ⟨[3], .float32, true, true, true⟩ .any = .ok false ∧
-    element [3] .float64 ⟨[4], .float64, true, true, true⟩ .any = .err "ValueError" := by decide
-
-/-- The write-back contract of `writable_array` (C17-F5 repaired): it never fails on the
-shape of the target; the old code failed exactly for a 0-d array. -/
-theorem C17.writable_array_contract (o : OutKind) (d : Bool) :
-    writeBack o d ≠ .indexError ∧ (writeBackOld o d = .indexError ↔ o = .ndarray0) := by
-  cases o <;> cases d <;> simp [writeBack, writeBackOld]
+    element [3] .float64 ⟨[4], .float64, true, true, true⟩ .any = .err "ValueError" := by decide +kernel
 
 /-! ## Power spaces -/
 
-/-- Finding C17-F6 (open) on the model: no `__array_ufunc__` on product-space elements, so
-`outer` results stay bare arrays, an element as `out` is a `TypeError`, a result of another
-shape cannot be wrapped.  The dtype part is repaired (24dcf7e): `np.isnan(px)` is wrapped in
-a boolean power space; the old `powerWrapOld` cast it into the original one. -/
-theorem C17.power_limits :
-    powerDispatch ⟨[2, 3], .float64⟩ .call 1 1 [] (.ok [.arr [2, 3] .bool]) =
-      .ok [.wrapP [2, 3] .bool] ∧
-    out1 (powerWrapOld ⟨[2, 3], .float64⟩ (.arr [2, 3] .bool)) = .ok [.wrapP [2, 3] .float64] ∧
-    powerDispatch ⟨[2, 3], .float64⟩ .outer 2 1 [] (.ok [.arr [2, 3, 2, 3] .float64]) =
-      .ok [.raw [2, 3, 2, 3] .float64] ∧
-    powerDispatch ⟨[2, 3], .float64⟩ .call 2 1 [.own] (.ok [.arr [2, 3] .float64]) =
-      .err "TypeError" ∧
-    powerDispatch ⟨[2, 3], .float64⟩ .reduce 2 1 [] (.ok [.arr [3] .float64]) =
-      .err "ValueError" := by decide
+/-- Findings C17-F6a–d (open) on the model: no `__array_ufunc__` on product-space elements, so
+an element as `out` is a `TypeError`, `at` is a `TypeError`, a result of another shape cannot
+be wrapped (`ValueError`), `outer` results stay bare arrays — for every power space, `nin` and
+result dtype. -/
+theorem C17.power_limits (s : PSelf) (nin : Nat) (dt : DType) (sh : List Nat) (vals : List NpVal)
+    (hs : sh ≠ s.shape) (hne : sh ≠ []) :
+    powerDispatch s .call nin 1 [.own] (.ok vals) = .err "TypeError" ∧
+    powerDispatch s .at 2 1 [] (.ok vals) = .err "TypeError" ∧
+    powerDispatch s .reduce nin 1 [] (.ok [.arr sh dt]) = .err "ValueError" ∧
+    powerDispatch s .outer nin 1 [] (.ok [.arr sh dt]) = .ok [.raw sh dt] := by
+  refine ⟨by simp [powerDispatch], by simp [powerDispatch], ?_, ?_⟩
+  · simp [powerDispatch, OutKind.given, out1, powerWrap, hs, hne]
+  · simp [powerDispatch, OutKind.given, out1]
+
+example : powerDispatch ⟨[2, 3], .float64⟩ .call 1 1 [] (.ok [.arr [2, 3] .bool]) =
+    .ok [.wrapP [2, 3] .bool] := by decide +kernel
 
 /-- What does hold for power spaces: a same-shape result is wrapped as an element of the
 power space of NumPy's dtype, a `()`-shaped one becomes a scalar, a given `ndarray` is returned itself. -/
@@ -641,7 +786,7 @@ theorem C17.legacy_power_table_total :
       (powerLegacyCall legacyNames legacyPowerRules npUfuncs name ⟨[2, 3], .float64⟩ []
         (.err "")).isSome) = true ∧
     legacyPowerReductions = [("sum", "sum"), ("prod", "prod"), ("min", "min"), ("max", "max")] := by
-  decide
+  decide +kernel
 
 /-- `px.ufuncs.<name>(out=…)`: a given `out` (per position) is the object returned, for all
 three wrapper forms, any result shapes and dtypes. -/
